@@ -72,6 +72,8 @@ type CtrlCfg struct {
 	Outputs    []controller.Output
 	LateInputs []controller.Input // added through UpdateInputs on wake LateAt (if >= 0)
 	LateAt     int
+	// LateKindFlip: on wake LateAt the current inputs are re-declared with other kinds (destroy-ready -> weak or strong, weak <-> strong)
+	LateKindFlip bool
 	BusyBefore []int // virtual ms per wake (cycled)
 	BusyAfter  []int
 	Late       bool           // registered after Run has started
@@ -404,9 +406,24 @@ func (p *Probe) Run(ctx context.Context, r controller.Runtime, _ *zap.Logger) er
 
 		sleepCtx(ctx, cyc(p.cfg.BusyBefore, n))
 
-		if p.cfg.LateAt >= 0 && n == p.cfg.LateAt && len(p.cfg.LateInputs) > 0 {
+		if p.cfg.LateAt >= 0 && n == p.cfg.LateAt && (len(p.cfg.LateInputs) > 0 || p.cfg.LateKindFlip) {
 			p.mu.Lock()
-			all := append(slices.Clone(p.inputs), p.cfg.LateInputs...)
+			all := slices.Clone(p.inputs)
+
+			if p.cfg.LateKindFlip {
+				for i := range all {
+					switch all[i].Kind {
+					case controller.InputDestroyReady:
+						all[i].Kind = []controller.InputKind{controller.InputWeak, controller.InputStrong}[i%2]
+					case controller.InputWeak:
+						all[i].Kind = controller.InputStrong
+					case controller.InputStrong:
+						all[i].Kind = controller.InputWeak
+					}
+				}
+			}
+
+			all = append(all, p.cfg.LateInputs...)
 			p.mu.Unlock()
 
 			if err := r.UpdateInputs(all); err == nil {
